@@ -142,7 +142,18 @@ def check_every_iteration_accumulates(prog: Program, res: Result, rule: str, qua
             heads = cfg.nodes_of(lp)
             enter = [m for h in heads for m in cfg.g.successors(h) if "true" in cfg.g[h][m]["labels"]]
             un = {x for st in ups for x in cfg.nodes_of(st)}
-            w = cfg.must_pass(enter, heads, un, drop_edge=lambda a, b, labels: "exc" in labels)
+            # skipping an instance that is NaN THROUGHOUT changes nothing (it would draw / add zeros): the edge taken when
+            # `isnan(instance).all()` holds is not a way of losing a labelled part
+            harmless = {}
+            for t_ in ast.walk(lp):
+                if isinstance(t_, ast.If):
+                    tt = astq.expand_at(fn, t_.test, t_)
+                    neg = isinstance(tt, ast.UnaryOp) and isinstance(tt.op, ast.Not)
+                    core = norm(tt.operand if neg else tt)
+                    if "isnan" in core and ".all(" in core + "(" and ".any(" not in core and "all(" in core:
+                        for tn in cfg.nodes_of(t_):
+                            harmless[tn] = "false" if neg else "true"
+            w = cfg.must_pass(enter, heads, un, drop_edge=lambda a, b, labels: "exc" in labels or (a in harmless and harmless[a] in labels))
             n += 1
             res.ob(rule, w is None, fi.qualname, f"every iteration folds its instance into `{nm}`",
                    f"an iteration of the loop in {fi.name} can end without updating `{nm}` ({cfg.path_str(w) if w else ''}): the instance of that iteration contributes nothing, "
